@@ -40,9 +40,19 @@ impl Pages {
     }
 
     pub fn flush(&mut self) -> Result<()> {
-        let Some(change_at) = self.change_at.take() else {
-            return Ok(());
-        };
+        if let Some((region, at, bytes)) = self.take_flush() {
+            region.truncate_write(at, &bytes)?;
+        }
+        Ok(())
+    }
+
+    /// Serializes the changed tail of the index without writing it: `(region, offset, bytes)`.
+    ///
+    /// The caller writes it with `region.truncate_write(offset, &bytes)` after releasing the lock
+    /// that guards `self`: growing the region can need the memory map exclusively, which a reader
+    /// holding the map and waiting for that lock would never give up.
+    pub fn take_flush(&mut self) -> Option<(Region, usize, Vec<u8>)> {
+        let change_at = self.change_at.take()?;
 
         let at = change_at * Self::SIZE_OF_PAGE;
         let pages_to_write = self.vec.len() - change_at;
@@ -52,9 +62,7 @@ impl Pages {
             bytes.extend_from_slice(&page.to_bytes());
         }
 
-        self.region.truncate_write(at, &bytes)?;
-
-        Ok(())
+        Some((self.region.clone(), at, bytes))
     }
 
     pub fn len(&self) -> usize {
